@@ -38,7 +38,7 @@ func (c *vp11Srv) LocalAddr() net.Addr                  { return vp11Addr{"serve
 type vp11Path struct {
 	srv       *ServerDnsListener
 	caseMode  int          // 0 kept, 1 lowered, 2 uppered
-	drop8bit  bool         // queries whose name contains a byte >= 0x80 (or a control byte) get no answer
+	drop8bit  bool         // queries whose name contains an octet >= 0x80 (or a control octet) on the wire get no answer
 	allowed   map[uint16]bool // answer types the path lets through (nil = all)
 	limit     int          // largest answer (wire bytes) the path delivers, 0 = unlimited
 	exchanges int
@@ -82,7 +82,7 @@ func (p *vp11Path) SendAndReceive(m *mdns.Msg, timeout *time.Duration) (*mdns.Ms
 	}
 	high := false
 	vp11Labels(wire, func(i int) {
-		if wire[i] >= 0x80 {
+		if wire[i] >= 0x80 || wire[i] < 0x20 {
 			high = true
 		}
 		if p.subst != 0 && wire[i] == byte(p.subst) {
@@ -101,10 +101,6 @@ func (p *vp11Path) SendAndReceive(m *mdns.Msg, timeout *time.Duration) (*mdns.Ms
 	}
 	name := []byte(q.Question[0].Name)
 	for i, c := range name {
-		if p.drop8bit && (c >= 0x80 || c < 0x20) {
-			p.dropped++
-			return nil, 0, vp11Timeout{}
-		}
 		switch p.caseMode {
 		case 1:
 			if c >= 'A' && c <= 'Z' {
